@@ -1692,6 +1692,8 @@ class WassersteinVectorizer(BaseEstimator, TransformerMixin):
                 else:
                     self.reference_distribution_ = reference_distribution
                     self.reference_vectors_ = reference_vectors
+                    lot_dimension = self.reference_vectors_.size
+                    block_size = max(1, memory_size // (lot_dimension * 8))
 
                 if self.method == "LOT_exact":
                     self.embedding_, self.components_ = lot_vectors_sparse(
@@ -2391,6 +2393,8 @@ class SinkhornVectorizer(BaseEstimator, TransformerMixin):
             else:
                 self.reference_distribution_ = reference_distribution
                 self.reference_vectors_ = reference_vectors
+                lot_dimension = self.reference_vectors_.size
+                block_size = max(1, memory_size // (lot_dimension * 8))
 
             self.embedding_, self.components_ = sinkhorn_vectors_sparse(
                 vectors,
